@@ -38,9 +38,9 @@ pub fn dump(v: &GasCostsValues) -> String {
     s.join(" ")
 }
 pub fn sched_line(v: &GasCostsValues) -> String {
-    let f = gas_gen::fixed_values(v).expect("V7");
-    let d = gas_gen::dep_values(v).expect("V7");
-    format!("sched {} {}", f.iter().map(|x| x.to_string()).collect::<Vec<_>>().join(" "), d.iter().map(dep_str).collect::<Vec<_>>().join(" "))
+    let f = gas_gen::fixed_values_any(v);
+    let d = gas_gen::dep_values_any(v);
+    format!("sched {} {} {}", gas_gen::version(v), f.iter().map(|x| x.to_string()).collect::<Vec<_>>().join(" "), d.iter().map(dep_str).collect::<Vec<_>>().join(" "))
 }
 
 const STORAGE_OPS: &[&str] = &["SCWQ", "SRW", "SRWQ", "SWW", "SWWQ", "SCLR", "SRDD", "SRDI", "SWRD", "SWRI", "SUPD", "SUPI", "SPLD"];
@@ -59,19 +59,22 @@ struct StepRec {
 
 fn pad8(x: u64) -> Option<u64> { x.checked_add(7).map(|v| v & !7) }
 
-/// run-time sizes the schedule depends on, read from the VM state BEFORE the instruction executes
+/// run-time state the schedule depends on, read from the VM BEFORE the instruction executes (what the model is told):
+/// CALL `[callee exists, code size, new-balance-entry]`; TR / MINT `[new-balance-entry]`; LDC (contract, blob) / CCP /
+/// CROO / CSIZ / BSIZ / BLDD `[exists, stored length]`; storage opcodes `[in slot cache, value length]` per slot in key order
 fn sizes(vm: &Vm, mn: &str, a: &[u64]) -> Vec<u64> {
     let st: &fuel_vm::prelude::MemoryStorage = vm.as_ref();
     let csize = |id: &ContractId| st.storage_contract_size(id).ok().flatten().map(|x| x as u64);
     let has_bal = |c: &ContractId, a: &AssetId| st.contract_asset_id_balance(c, a).ok().flatten().is_some();
     let bsize = |id: &BlobId| StorageSize::<BlobData>::size_of_value(st, id).ok().flatten().map(|x| x as u64);
+    let stored = |l: Option<u64>| match l { Some(l) => vec![1, l], None => vec![0, 0] };
     match mn {
         "CALL" => {
             let id = mem32(vm, a[0]).map(ContractId::new);
             let asset = mem32(vm, a[2]).map(AssetId::new);
-            let size = id.as_ref().and_then(|i| csize(i)).and_then(pad8).unwrap_or(0);
-            let new_entry = match (&id, &asset) { (Some(i), Some(s)) => a[1] != 0 && !has_bal(i, s), _ => false };
-            vec![size, new_entry as u64]
+            let mut v = stored(id.as_ref().and_then(|i| csize(i)));
+            v.push(match (&id, &asset) { (Some(i), Some(s)) => (a[1] != 0 && !has_bal(i, s)) as u64, _ => 0 });
+            v
         }
         "TR" => {
             let id = mem32(vm, a[0]).map(ContractId::new);
@@ -83,16 +86,27 @@ fn sizes(vm: &Vm, mn: &str, a: &[u64]) -> Vec<u64> {
             let sub = mem32(vm, a[1]).map(SubAssetId::new);
             vec![match (&c, &sub) { (Some(c), Some(s)) => (!has_bal(c, &c.asset_id(s))) as u64, _ => 0 }]
         }
-        "CSIZ" | "CROO" => vec![mem32(vm, a[1]).map(ContractId::new).and_then(|i| csize(&i)).unwrap_or(0)],
-        "CCP" => vec![mem32(vm, a[1]).map(ContractId::new).and_then(|i| csize(&i)).map(|l| l.max(a[3])).unwrap_or(0)],
-        "LDC" => vec![match a[3] {
-            0 => mem32(vm, a[0]).map(ContractId::new).and_then(|i| csize(&i)).map(|l| l.max(pad8(a[2]).unwrap_or(u64::MAX))).unwrap_or(0),
-            1 => mem32(vm, a[0]).map(BlobId::new).and_then(|i| bsize(&i)).map(|l| l.max(pad8(a[2]).unwrap_or(u64::MAX))).unwrap_or(0),
-            2 if a[2] != 0 => pad8(a[2]).unwrap_or(u64::MAX),
-            _ => 0,
-        }],
-        "BSIZ" => vec![mem32(vm, a[1]).map(BlobId::new).and_then(|i| bsize(&i)).unwrap_or(0)],
-        "BLDD" => vec![mem32(vm, a[1]).map(BlobId::new).and_then(|i| bsize(&i)).map(|l| l.max(a[3])).unwrap_or(0)],
+        "CSIZ" | "CROO" | "CCP" => stored(mem32(vm, a[1]).map(ContractId::new).and_then(|i| csize(&i))),
+        "BSIZ" | "BLDD" => stored(mem32(vm, a[1]).map(BlobId::new).and_then(|i| bsize(&i))),
+        "LDC" => match a[3] {
+            0 => stored(mem32(vm, a[0]).map(ContractId::new).and_then(|i| csize(&i))),
+            1 => stored(mem32(vm, a[0]).map(BlobId::new).and_then(|i| bsize(&i))),
+            _ => vec![],
+        },
+        _ if STORAGE_OPS.contains(&mn) => {
+            let key_ptr = match mn { "SRW" | "SRWQ" => a[2], "SRDD" | "SRDI" | "SPLD" => a[1], _ => a[0] };
+            let (Some(c), Some(key)) = (current_contract(vm), mem32(vm, key_ptr).map(Bytes32::new)) else { return vec![] };
+            let n = match mn { "SCWQ" => a[2], "SRWQ" | "SWWQ" => a[3], "SCLR" => 0, _ => 1 };
+            let mut v = vec![];
+            for i in 0..n.min(SLOT_CAP) {
+                let Some(k) = key_add(&key, i) else { break };
+                match vm.bench_storage_slot_cache().get(&(c, k)) {
+                    Some(val) => { v.push(1); v.push(val.as_ref().map(|d| d.len()).unwrap_or(0) as u64); }
+                    None => { v.push(0); v.push(StorageSize::<ContractsState>::size_of_value(st, &ContractsStateKey::new(&c, &k)).ok().flatten().unwrap_or(0) as u64); }
+                }
+            }
+            v
+        }
         _ => vec![],
     }
 }
@@ -101,13 +115,19 @@ fn sizes(vm: &Vm, mn: &str, a: &[u64]) -> Vec<u64> {
 // Specification-side schedule evaluator (independent of opcodes_impl.rs, of the Lean model and of
 // `DependentCost::resolve*`): which schedule entries an instruction is charged, in which order, over which unit counts.
 
+/// schedule entry by name in the schedule's own version; `None`: this version does not define it
 fn fixed_cost(v: &GasCostsValues, field: &str) -> Option<u64> {
-    let i = gas_gen::FIXED.iter().position(|f| *f == field)?;
-    Some(gas_gen::fixed_values(v)?[i])
+    let i = gas_gen::fixed_names(gas_gen::version(v)).iter().position(|f| *f == field)?;
+    Some(gas_gen::fixed_values_any(v)[i])
 }
+/// versions that price an instruction with a plain word serve it as a heavy operation without per-unit cost;
+/// V1 / V2 have no `cfe` entry and price CFE like CFEI
 fn dep_cost(v: &GasCostsValues, field: &str) -> Option<DependentCost> {
-    let i = gas_gen::DEP.iter().position(|f| *f == field)?;
-    Some(gas_gen::dep_values(v)?[i])
+    let k = gas_gen::version(v);
+    if let Some(i) = gas_gen::dep_names(k).iter().position(|f| *f == field) { return Some(gas_gen::dep_values_any(v)[i]); }
+    if let Some(base) = fixed_cost(v, field) { return Some(DependentCost::HeavyOperation { base, gas_per_unit: 0 }); }
+    if field == "cfe" && k <= 2 { return dep_cost(v, "cfei"); }
+    None
 }
 fn dep_base(d: &DependentCost) -> u64 { match d { DependentCost::LightOperation { base, .. } | DependentCost::HeavyOperation { base, .. } => *base } }
 /// the part of a dependent cost that depends on the unit count: `units / units_per_gas` (light), `units * gas_per_unit` (heavy, saturating)
@@ -137,10 +157,13 @@ struct Spec {
     /// storage slots the instruction accesses with the hot flag and length the oracle's own history gives them,
     /// and what the VM's slot cache says about the same slots (compared by the caller)
     cache_mismatch: Option<String>,
+    /// the next schedule entry is not defined in this schedule version: GasCostNotDefined after the listed charges
+    undefined: Option<String>,
 }
 impl Spec {
     fn push(&mut self, what: String, amount: Option<u64>) -> bool {
-        match amount { Some(a) => { self.charges.push((what, a)); true } None => { self.complete = false; false } }
+        if !self.complete { return false; }
+        match amount { Some(a) => { self.charges.push((what, a)); true } None => { self.complete = false; self.undefined = Some(what); false } }
     }
 }
 
@@ -203,7 +226,7 @@ fn spec_charges(vm: &Vm, costs: &GasCostsValues, hot: &mut Hot, mn: &str, a: &[u
     let csize = |id: &ContractId| st.storage_contract_size(id).ok().flatten().map(|x| x as u64);
     let bsize = |id: &BlobId| StorageSize::<BlobData>::size_of_value(st, id).ok().flatten().map(|x| x as u64);
     let has_bal = |c: &ContractId, a: &AssetId| st.contract_asset_id_balance(c, a).ok().flatten().is_some();
-    let mut sp = Spec { charges: vec![], complete: true, cache_mismatch: None };
+    let mut sp = Spec { charges: vec![], complete: true, cache_mismatch: None, undefined: None };
     let lower = mn.to_lowercase();
     let entry = match mn { "MOD" => "mod_op", "MOVE" => "move_op", "JAL" => "jmp", "CFS" => "cfsi", "LQW" | "LHW" => "lw", "SQW" | "SHW" => "sw", _ => lower.as_str() };
     let new_entry = |sp: &mut Spec| { sp.push(format!("new_storage_per_byte*{BALANCE_ENTRY_BYTES}"), fixed_cost(costs, "new_storage_per_byte").map(|p| p.saturating_mul(BALANCE_ENTRY_BYTES))); };
@@ -334,7 +357,7 @@ fn run_case(ctx: &mut Ctx, scn: &Scn, sched_name: &str, tag: &str) -> Option<u64
             return None;
         }
     }
-    ctx.emit(&sched_line(&costs), &format!("ok {}", gas_gen::FIXED.len() + gas_gen::DEP.len()));
+    ctx.emit(&sched_line(&costs), &format!("ok {} {}", gas_gen::version(&costs), gas_gen::fixed_values_any(&costs).len() + gas_gen::dep_values_any(&costs).len()));
     let (c0, g0) = first.unwrap_or((scn.gas_limit, scn.gas_limit));
     ctx.emit(&format!("begin {}", scn.gas_limit), &format!("{c0} {g0} 0"));
     let n = steps.len();
@@ -342,9 +365,9 @@ fn run_case(ctx: &mut Ctx, scn: &Scn, sched_name: &str, tag: &str) -> Option<u64
         let last = k + 1 == n;
         let this_panicked = last && panic.is_some() && panic_pc == Some(s.pc);
         let oog = this_panicked && panic == Some(PanicReason::OutOfGas);
-        let inexact = STORAGE_OPS.contains(&s.mn.as_str()) || s.mn == "ECAL";
+        let inexact = s.mn == "ECAL";
         let kind = if inexact { format!("inx {} {}", s.cgas_a, s.ggas_a) }
-            else if this_panicked && !oog { format!("pan {} {}", s.cgas_a, s.ggas_a) }
+            else if this_panicked && !oog { format!("pan {:?} {} {}", panic.unwrap(), s.cgas_a, s.ggas_a) }
             else { "x".to_string() };
         let line = format!("i {} {} {} {} {} {}", s.mn, s.args.len(), s.args.iter().map(|x| x.to_string()).collect::<Vec<_>>().join(" "),
             s.sizes.len(), s.sizes.iter().map(|x| x.to_string()).collect::<Vec<_>>().join(" "), kind).replace("  ", " ").replace("  ", " ");
@@ -388,6 +411,14 @@ fn run_case(ctx: &mut Ctx, scn: &Scn, sched_name: &str, tag: &str) -> Option<u64
                 else if used as u128 != total { ctx.oracle_fail("charge-differs-from-schedule", &inp, &format!("schedule {total} = [{}] charged {used}", list())); }
             } else if oog {
                 if short.is_none() && sp.complete { ctx.oracle_fail("oog-iff-cost-exceeds-cgas", &inp, &format!("schedule {total} = [{}] fits cgas {} but OutOfGas", list(), s.cgas_b)); }
+            } else if panic == Some(PanicReason::GasCostNotDefined) || (sp.undefined.is_some() && sp.charges.is_empty()) {
+                // a schedule version without this entry: exactly the charges before it were made
+                match &sp.undefined {
+                    Some(_) if panic == Some(PanicReason::GasCostNotDefined) && short.is_none() && used as u128 == total => {}
+                    Some(w) => ctx.oracle_fail("gas-cost-not-defined-shape", &inp, &format!("entry {w} is not defined in V{}; expected GasCostNotDefined after [{}], got {:?} charged {used}", gas_gen::version(&costs), list(), panic)),
+                    None => ctx.oracle_fail("gas-cost-not-defined-shape", &inp, &format!("all entries of [{}] are defined in V{} but the instruction failed with GasCostNotDefined", list(), gas_gen::version(&costs))),
+                }
+                ctx.count("oracle.gas-cost-not-defined");
             } else {
                 // panicked for another reason: the first charge precedes every other check, so at least one charge was
                 // made, and exactly a prefix of the list was consumed; a prefix the context gas does not cover is OutOfGas
@@ -419,24 +450,40 @@ fn run_case(ctx: &mut Ctx, scn: &Scn, sched_name: &str, tag: &str) -> Option<u64
 
 /// corpus: every opcode of the instruction table executed once (script context, operands = zeroed registers /
 /// zero immediates, then `ret`) under a schedule whose entries are pairwise distinct, so that an opcode charging
-/// another opcode's entry is visible to the oracle and to the model
+/// another opcode's entry is visible to the oracle and to the model — for each `GasCostsValues` version V7 … V1
+/// (old versions lack entries: those opcodes must fail with GasCostNotDefined; some serve a word as a dependent cost)
 fn opcode_sweep(ctx: &mut Ctx) {
-    let f: Vec<u64> = (0..gas_gen::FIXED.len() as u64).map(|i| 1000 + 7 * i).collect();
-    let d: Vec<DependentCost> = (0..gas_gen::DEP.len() as u64).map(|i| DependentCost::LightOperation { base: 5000 + 11 * i, units_per_gas: 3 + i }).collect();
-    let costs = gas_gen::make(&f, &d);
-    for row in g::TABLE {
-        let mut r = ctx.rng.clone();
-        let mut scn = gen_scenario(&mut r, Focus::Gas, costs.clone());
-        let base = *scn.params.base_asset_id();
-        let args: Vec<u32> = row.2.iter().map(|k| if *k == 0 { 0x10 } else { 0 }).collect();
-        let Some(ins) = g::construct(row.0, &args) else { continue };
-        let code = vec![ins, fuel_asm::op::ret(RegId::ONE)];
-        let mut bytes: Vec<u8> = code.iter().flat_map(|i| i.to_bytes()).collect();
-        bytes.extend_from_slice(&pool(&base));
-        scn.script = bytes; scn.gas_limit = 1_000_000; scn.gas_price = 0; scn.coin_outs.clear();
-        run_case(ctx, &scn, "distinct", &format!("sweep {}", row.1));
-        ctx.count("sweep.opcode");
+    for k in (1..=7usize).rev() {
+        let f: Vec<u64> = (0..gas_gen::fixed_names(k).len() as u64).map(|i| 1000 + 7 * i).collect();
+        let d: Vec<DependentCost> = (0..gas_gen::dep_names(k).len() as u64).map(|i| DependentCost::LightOperation { base: 5000 + 11 * i, units_per_gas: 3 + i }).collect();
+        let costs = gas_gen::make_version(k, &f, &d);
+        let name = ["", "distinct-v1", "distinct-v2", "distinct-v3", "distinct-v4", "distinct-v5", "distinct-v6", "distinct"][k];
+        for row in g::TABLE {
+            let mut r = ctx.rng.clone();
+            let mut scn = gen_scenario(&mut r, Focus::Gas, costs.clone());
+            let base = *scn.params.base_asset_id();
+            let args: Vec<u32> = row.2.iter().map(|k| if *k == 0 { 0x10 } else { 0 }).collect();
+            let Some(ins) = g::construct(row.0, &args) else { continue };
+            let code = vec![ins, fuel_asm::op::ret(RegId::ONE)];
+            let mut bytes: Vec<u8> = code.iter().flat_map(|i| i.to_bytes()).collect();
+            bytes.extend_from_slice(&pool(&base));
+            scn.script = bytes; scn.gas_limit = 1_000_000; scn.gas_price = 0; scn.coin_outs.clear();
+            run_case(ctx, &scn, name, &format!("sweep {}", row.1));
+            ctx.count("sweep.opcode");
+        }
     }
+}
+
+/// a randomized schedule of an old version (V1 … V6)
+fn old_version_schedule(rng: &mut crate::ctx::Rng) -> (GasCostsValues, &'static str) {
+    let k = rng.range(1, 6) as usize;
+    let f: Vec<u64> = (0..gas_gen::fixed_names(k).len()).map(|_| match rng.below(10) { 0 => 0, 1 => rng.range(100, 5000), _ => rng.range(1, 20) }).collect();
+    let d: Vec<DependentCost> = (0..gas_gen::dep_names(k).len()).map(|_| {
+        let base = match rng.below(8) { 0 => 0, 1 => rng.range(100, 3000), _ => rng.range(1, 40) };
+        if rng.chance(1, 2) { DependentCost::LightOperation { base, units_per_gas: match rng.below(4) { 0 => 1, 1 => rng.range(2, 9), _ => rng.range(1, 4000) } } }
+        else { DependentCost::HeavyOperation { base, gas_per_unit: match rng.below(5) { 0 => 0, _ => rng.range(1, 30) } } }
+    }).collect();
+    (gas_gen::make_version(k, &f, &d), ["", "random-v1", "random-v2", "random-v3", "random-v4", "random-v5", "random-v6"][k])
 }
 
 fn assemble(body: Vec<Instruction>, base: &AssetId, tail: usize) -> Vec<u8> {
@@ -496,8 +543,8 @@ fn dependent_sweep(ctx: &mut Ctx) {
     let f: Vec<u64> = (0..gas_gen::FIXED.len() as u64).map(|i| 1000 + 7 * i).collect();
     let distinct: Vec<DependentCost> = (0..gas_gen::DEP.len() as u64).map(|i| DependentCost::LightOperation { base: 5000 + 11 * i, units_per_gas: 3 + i }).collect();
     let heavy: Vec<DependentCost> = (0..gas_gen::DEP.len() as u64).map(|i| DependentCost::HeavyOperation { base: 20 + i, gas_per_unit: 2 + i % 3 }).collect();
-    for (name, dd) in [("distinct", distinct), ("heavy", heavy)] {
-        let costs = gas_gen::make(&f, &dd);
+    let v6 = gas_gen::make_version(6, &(0..gas_gen::fixed_names(6).len() as u64).map(|i| 3 + i).collect::<Vec<_>>(), &(0..gas_gen::dep_names(6).len() as u64).map(|i| DependentCost::HeavyOperation { base: 20 + i, gas_per_unit: 2 }).collect::<Vec<_>>());
+    for (name, costs) in [("distinct", gas_gen::make(&f, &distinct)), ("heavy", gas_gen::make(&f, &heavy)), ("heavy-v6", v6)] {
         let mut r = ctx.rng.clone();
         let mut scn = gen_scenario(&mut r, Focus::Gas, costs);
         let base = *scn.params.base_asset_id();
@@ -532,7 +579,7 @@ pub fn run(ctx: &mut Ctx) {
     dependent_sweep(ctx);
     let n = ctx.n(120, 1500);
     for case in 0..n {
-        let (costs, name) = schedule(&mut ctx.rng, gas_gen::FIXED.len(), gas_gen::DEP.len(), &gas_gen::make);
+        let (costs, name) = if ctx.rng.chance(1, 8) { old_version_schedule(&mut ctx.rng) } else { schedule(&mut ctx.rng, gas_gen::FIXED.len(), gas_gen::DEP.len(), &gas_gen::make) };
         let mut scn = gen_scenario(&mut ctx.rng, Focus::Gas, costs);
         if ctx.rng.chance(2, 3) { scn.gas_limit = scn.gas_limit.max(ctx.rng.range(20_000, 2_000_000)); }
         let used = run_case(ctx, &scn, name, &format!("case={case}"));
